@@ -1003,7 +1003,7 @@ int main(int argc, char** argv)
   c01.stub_components = {"both endpoints (harness tasks)", "the payload", "C++11 atomics (operational model: under-approximates the standard — seq_cst stronger, bounded store history of 8)"};
   c01.assumptions = {"the memory model under-approximates C++11: it can miss an allowed behaviour, never invent a forbidden one",
                      "the queue's own non-atomic members are touched by one side only (the SPSC contract), only payload bytes are race-checked"};
-  c01.quick_runs = 20000;
+  c01.quick_runs = 100000;
   c01.thorough_runs = 5000000;
   eng.props["C01"] = c01;
   bd::PropInfo c02 = c01;
@@ -1015,7 +1015,7 @@ int main(int argc, char** argv)
     "capacity never above the maximum, payload only inside live mappings, atomics of deleted nodes never touched again, all mappings freed at "
     "destruction; distinct = distinct atomic-event hash; non-trivial = >=2 task switches and >=3 records delivered";
   c02.real_components = {"UnboundedSPSCQueue + its BoundedSPSCQueue nodes (unmodified headers), real mmap/munmap"};
-  c02.quick_runs = 20000;
+  c02.quick_runs = 100000;
   eng.props["C02"] = c02;
   bd::PropInfo c09 = c01;
   c09.rule =
@@ -1023,7 +1023,7 @@ int main(int argc, char** argv)
     "passes with one commit_read each, then idle polls that find nothing) and the producer then asks for n <= capacity (unbounded: <= maximum), "
     "biased to the last 12 %, retrying more often than a stale load can persist; the state cannot change any more, so 'still refused' is an exact "
     "verdict; distinct = distinct atomic-event hash; non-trivial = >=2 task switches and >=3 records delivered";
-  c09.quick_runs = 3000;
+  c09.quick_runs = 4000;
   eng.props["C09"] = c09;
   return bd::batch_main(argc, argv, eng);
 }
